@@ -2628,7 +2628,8 @@ class Node(_protocols.NodeProtocol, _display.PrettyPrintable):
         Raises:
             ValueError: If ``value`` is not an input or output of the node, if
                 ``num_shards < 1``, if ``pipeline_stage`` is negative, if ``axis``
-                is out of range when the rank of ``value`` is known, if ``value``
+                is out of range when the rank of ``value`` is known, if a device
+                index is not in ``range(configuration.num_devices)``, if ``value``
                 is already sharded along ``axis`` for this ``configuration``, or
                 if ``pipeline_stage`` conflicts with the configuration's existing
                 stage.
@@ -2658,6 +2659,12 @@ class Node(_protocols.NodeProtocol, _display.PrettyPrintable):
             simple_shardings=(_multi_device.SimpleShardedDim(dim=dim, num_shards=num_shards),),
         )
         device_indices = tuple(device_indices)
+        for device_index in device_indices:
+            if not 0 <= device_index < configuration.num_devices:
+                raise ValueError(
+                    f"device index {device_index} is out of range for configuration "
+                    f"{configuration.name!r} (num_devices={configuration.num_devices})."
+                )
         new_spec = _multi_device.ShardingSpec(
             value=value, device=device_indices, sharded_dims=(new_dim,)
         )
